@@ -252,7 +252,12 @@ def judge_clip_evaluation(ctx, seed, na, npred, same_clip, matches, score, id_ov
             return data.ClipEvaluation(**kwargs())
         kw = kwargs_raw()
         if path == "dict":
-            return data.ClipEvaluation.model_validate({k: _dumpd(v) for k, v in kw.items()})
+            raw = {k: _dumpd(v) for k, v in kw.items()}
+            if ctx.every(spec, 2):
+                # raw data is any mapping (a read-only view, a UserDict, a database row), not only a dict
+                ctx.mon("attempt.dict_as_other_mapping")
+                raw = _as_mapping(raw, 0)
+            return data.ClipEvaluation.model_validate(raw)
         return data.ClipEvaluation.model_validate_json(json.dumps({k: _dumpd(v, "json") for k, v in kw.items()}, default=_jd))
 
     for p in PATHS:
@@ -281,6 +286,18 @@ def judge_clip_evaluation(ctx, seed, na, npred, same_clip, matches, score, id_ov
         ctx.mon("defaulted_field_omitted")
         for p in ("dict", "json"):
             _attempt(ctx, "ClipEvaluation", p, build_no_ids, dict(spec, omitted="clip uuids"), False)
+
+
+def _as_mapping(v, depth):
+    import collections
+    import types
+
+    if isinstance(v, dict):
+        inner = {k: _as_mapping(x, depth + 1) for k, x in v.items()}
+        return types.MappingProxyType(inner) if depth % 2 else collections.UserDict(inner)
+    if isinstance(v, list):
+        return [_as_mapping(x, depth + 1) for x in v]
+    return v
 
 
 def _dumpd(v, mode="python"):
